@@ -37,7 +37,7 @@ def handleHubSubs (hdr : List String) (body : List (List String)) : List String 
     let ops := body.filterMap (fun ws => match ws with | ["op", "sub", j, from_] => some (j, from_.toNat?.getD 0) | _ => none)
     if body.any (· == ["impl", "trial", "hub-not-ready"]) then ["model trial hub-not-ready"] else
     let expect (j : String) (from_ : Nat) : String :=
-      if never == "1" && j == "0" then s!"sub {j} dropped=1"
+      if (never == "1" && j == "0") || j.startsWith "v" then s!"sub {j} dropped=1"
       else s!"sub {j} {from_}-{final}/{final + 1 - from_} contiguous=1"
     let model := ops.map (fun (j, f) => "model " ++ expect j f)
     let impl := body.filterMap (fun ws => match ws with | "impl" :: rest => some (unwords rest) | _ => none)
